@@ -242,6 +242,10 @@ def catalogue(ao):
     # slope covariance
     add("slopecovariance.calculate_structure_function", SC.calculate_structure_function, ["PHASE"], lambda f, a: f(a[0], nbOfPoint=4, step=2))
     add("slopecovariance.calculate_wfs_seperations", SC.calculate_wfs_seperations, ["POS1", "POS2"], lambda f, a: f(4, 4, a[0], a[1]))
+    for nm in ("ft", "ift", "ft2", "ift2"):          # the same transforms under the names the PACKAGE exports
+        if hasattr(ao, nm):
+            add("aotools.%s[batch]" % nm, getattr(ao, nm), ["FSTACK"], lambda f, a: f(a[0], 0.1),
+                batch=dict(n=2, single=lambda f, a, i: f(a[0][i], 0.1), item=lambda r, i: r[i]))
     for nm in ("xx", "yy", "xy"):
         add("slopecovariance.compute_covariance_" + nm, getattr(SC, "compute_covariance_" + nm), ["SEP"],
             lambda f, a: f(a[0], 0.5, 0.4, 0.15, 25.0))
@@ -261,6 +265,9 @@ def catalogue(ao):
         lambda f, a: f((4, 4, a[0], a[1], 0.5, 0.5, 0.15, 25.0)))
     add("slopecovariance.CovarianceMatrix", SC.CovarianceMatrix, ["MASK4", "GSPOS", "LAYR0"], lambda f, a: _covmat(f, a, 1))
     add("slopecovariance.CovarianceMatrix[rebuild+tomo]", SC.CovarianceMatrix, ["MASK4", "GSPOS", "LAYR0"], lambda f, a: _covmat(f, a, 1, True))
+    # (last of its family on purpose: in the reversed call order of the cross-process trace this system is the FIRST one a fresh
+    #  interpreter builds, in the natural order it comes after systems with more sub-apertures)
+    add("slopecovariance.CovarianceMatrix[vignetted]", SC.CovarianceMatrix, ["MASK4", "GSPOS", "LAYR0"], lambda f, a: _covmat(f, a, 1, False, True))
     # temporal power spectra
     add("temporal_ps.calc_slope_temporalps", TP.calc_slope_temporalps, ["SLOPES"], lambda f, a: f(a[0]))
     add("temporal_ps.calc_slope_temporalps[batch]", TP.calc_slope_temporalps, ["SLOPESB"], lambda f, a: f(a[0]),
@@ -351,8 +358,11 @@ def _rows(obj):
     return out
 
 
-def _covmat(cls, a, threads, again=False):
+def _covmat(cls, a, threads, again=False, vignetted=False):
     mask, gspos, r0s = a
+    if vignetted:                       # another system in the same process: fewer active sub-apertures on both sensors
+        mask = np.array(mask, copy=True)
+        mask[1, 0] = mask[2, 3] = 0
     cm = cls(2, np.array([mask, mask]), 4.0, np.array([1.0, 1.0]), np.array([0.0, 90000.0]), gspos, np.array([5e-7, 6e-7]),
              2, np.array([0.0, 5000.0]), r0s, np.array([25.0, 25.0]), threads=threads)
     m1 = np.array(cm.make_covariance_matrix(), copy=True)
@@ -752,7 +762,7 @@ def run(run):
     finally:
         np.random.set_state(saved)
     n_inproc = len(traces)
-    traces.append(cross_process_trace(3 if quick else 6))
+    traces.append(cross_process_trace(4 if quick else 8))
     rt, rejected = validate(run, traces, "PurityTrace/recorded")
     if rt.violated:
         run.violation("trace-violates-" + rt.violated, dict(note="a recorded program violates a model invariant"), dict(kind="none"))
@@ -784,7 +794,7 @@ def run(run):
         raise core.MachineryError("entry points never called: %s" % never)
     run.sample([dict(op=e["op"], name=e.get("name"), args=e.get("args"), before=e.get("before"), after=e.get("after"), res=e.get("res"))
                 for e in traces[0][:6]])
-    run.aux.update(entries=len(entries), model_programs=n_model, long_programs=n_inproc - n_model, cross_process_orders=3 if quick else 6,
+    run.aux.update(entries=len(entries), model_programs=n_model, long_programs=n_inproc - n_model, cross_process_orders=4 if quick else 8,
                    events=sum(len(t) for t in traces), results_overwritten_by_caller=sum(1 for t in traces for ev in t if ev["op"] == "scribble"), min_calls_per_entry=min(calls.values()), rejected=len(rejected))
     run.bounds = dict(cfg=cfg, skeletons=len(skels), long_program_length=30)
     run.exhaustive = False
